@@ -10,14 +10,13 @@
 (* correct implementation (other tie-breaks, smarter alignment) passes.    *)
 (* All guards are in expression context (no action-level disjunction).     *)
 (***************************************************************************)
-EXTENDS Common, TLC, Json, IOUtils
+EXTENDS ArenaProps, TLC, Json, IOUtils
 
 Rec == ndJsonDeserialize(IOEnv.TRACE)
 
 VARIABLES l, S, cfg
 vars == <<l, S, cfg>>
 
-Has(r, f) == f \in DOMAIN r
 Viol(prop, pred, a, ok) == IF ok THEN TRUE ELSE PrintT(<<"VIOL", prop, pred, l, a>>)
 
 NoLive == [x \in {} |-> 0]
@@ -33,7 +32,7 @@ InitArena(c, d) ==
   IF d.ok
   THEN [ok |-> TRUE, flavor |-> d.flavor, backend |-> d.backend, doff |-> d.data_offset,
         live |-> NoLive, leaked |-> {}, obs |-> d.obs, mem |-> d.mem,
-        truncated |-> FALSE, rewound |-> FALSE, first |-> TRUE, dead |-> FALSE]
+        truncated |-> FALSE, rewound |-> FALSE, first |-> TRUE, dead |-> FALSE, na |-> FALSE]
   ELSE DeadArena
 
 ResetCheck(a, c, d) ==
@@ -66,50 +65,15 @@ ResetCheck(a, c, d) ==
                                       /\ RangeIs(d.mem, want, c.cap, 0))
      /\ Viol("C16", "ReservedUntouched", a, RangeIs(d.mem, 0, res, ReservedPattern))
 
-\* ------------------------------------------------------------------ helpers on ops
-IsAlloc(op) == op.k \in {"ab", "at", "aa"}
-TSize(op) == IF op.k = "ab" THEN 0 ELSE op.s
-TAlign(op) == IF op.k = "ab" THEN 1 ELSE op.a
-Extra(op) == IF op.k = "at" THEN 0 ELSE op.n
-ZeroReq(op) == TSize(op) = 0 /\ Extra(op) = 0
-\* bytes the fast path takes from the cursor
-NeedFresh(op, cur) == IF TSize(op) = 0 THEN Extra(op) ELSE Align(cur, TAlign(op)) + TSize(op) + Extra(op) - cur
-\* the most a correct implementation may ask a segment for
-NeedMax(op) == IF TSize(op) = 0 THEN Extra(op) ELSE TSize(op) + TAlign(op) - 1 + Extra(op)
-
-ShapeOk(op, r) ==
-  IF TSize(op) = 0 THEN r.ps = Extra(op)
-  ELSE IF op.k = "at" THEN r.ps = op.s /\ r.po % op.a = 0
-  ELSE r.po % op.a = 0 /\ r.ps >= op.s + op.n
-
-HandleOf(op, r, delta) ==
-  [mo |-> r.mo, ms |-> r.ms, po |-> r.po, ps |-> r.ps, pat |-> r.pat, owned |-> r.owned,
-   det |-> FALSE, embeds |-> delta]
-
-\* ------------------------------------------------------------------ state-wide predicates
-LiveSet(s) == {s.live[h] : h \in DOMAIN s.live}
-
+\* ------------------------------------------------------------------ state-wide memory facts
 LiveIntact(live, mem) ==
   \A h \in DOMAIN live : (live[h].pat = 0 \/ live[h].ps = 0) \/ RangeIs(mem, live[h].po, live[h].po + live[h].ps, live[h].pat)
 LeakedIntact(leaked, mem) ==
   \A k \in leaked : k.pat = 0 \/ k.ps = 0 \/ RangeIs(mem, k.po, k.po + k.ps, k.pat)
 
-Ordered(kind, x, y) == IF kind = "opt" THEN x >= y ELSE IF kind = "pes" THEN x <= y ELSE TRUE
-
-FLShape(kind, doff, fl, obs, rewound) ==
-  /\ ~obs.fltrunc
-  /\ (kind = "none") => (fl = <<>>)
-  /\ \A i \in 1..Len(fl) : /\ fl[i][1] % 8 = 0 /\ doff <= fl[i][1]
-                           /\ Seg(fl[i]).hi <= obs.cap
-                           /\ (rewound \/ Seg(fl[i]).hi <= obs.alloc)
-  /\ \A i, j \in 1..Len(fl) : i < j => (Disjoint(Seg(fl[i]), Seg(fl[j])) /\ Ordered(kind, fl[i][2], fl[j][2]))
-FLvsLive(fl, live) ==
-  \A i \in 1..Len(fl) : \A h \in DOMAIN live : Disjoint(Seg(fl[i]), Acc(live[h]))
-FLvsLeaked(fl, leaked) ==
-  \A i \in 1..Len(fl) : \A k \in leaked : Disjoint(Seg(fl[i]), Acc(k))
-
-SameObs(o1, o2) == /\ o1.alloc = o2.alloc /\ o1.disc = o2.disc /\ o1.rem = o2.rem /\ o1.fl = o2.fl
-                   /\ o1.cap = o2.cap /\ o1.minseg = o2.minseg
+HandleOf(op, r, delta) ==
+  [mo |-> r.mo, ms |-> r.ms, po |-> r.po, ps |-> r.ps, pat |-> r.pat, owned |-> r.owned,
+   det |-> FALSE, embeds |-> delta]
 
 \* ------------------------------------------------------------------ per-op: new state
 DropFrom(live, h) == [i \in DOMAIN live \ {h} |-> live[i]]
@@ -133,7 +97,7 @@ NextArena(op, x, s) ==
   ELSE IF op.k = "detach" THEN
      IF x.res.k = "ok" THEN [s1 EXCEPT !.live = [s.live EXCEPT ![op.h].det = TRUE]] ELSE s1
   ELSE IF op.k = "rewind" THEN
-     \* handles and leaked ranges not entirely below the new cursor are given up by the caller
+     \* handles and detached data not entirely below the new cursor are given up by the caller
      LET keep == {h \in DOMAIN s.live : \A k \in 1..Len(x.invalidated) : x.invalidated[k] # h} IN
      [s1 EXCEPT !.live = [h \in keep |-> s.live[h]],
                 !.leaked = {k \in s.leaked : k.po + k.ps <= x.obs.alloc},
@@ -141,132 +105,36 @@ NextArena(op, x, s) ==
   ELSE IF op.k = "clear" THEN
      [s1 EXCEPT !.live = NoLive, !.leaked = {}, !.rewound = FALSE, !.first = TRUE]
   ELSE IF op.k = "truncate" THEN
-     IF x.res.k = "na" THEN [s1 EXCEPT !.live = NoLive, !.leaked = s.leaked \cup {AsLeak(s.live[h]) : h \in DOMAIN s.live}]
-     ELSE [s1 EXCEPT !.live = NoLive, !.leaked = s.leaked \cup {AsLeak(s.live[h]) : h \in DOMAIN s.live},
-                     !.truncated = TRUE]
+     [s1 EXCEPT !.na = (s.na \/ x.res.k = "na"), !.live = NoLive, !.leaked = s.leaked \cup {AsLeak(s.live[h]) : h \in DOMAIN s.live},
+                !.truncated = (s.truncated \/ x.res.k = "ok")]
   ELSE s1
 
-\* ------------------------------------------------------------------ per-op: predicates
+\* ------------------------------------------------------------------ per-op: predicates (ArenaProps)
 Deallocs(x) == SelectSeq(x.api, LAMBDA r : r.k = "dealloc")
-
-AllocOkChecks(a, op, x, s, s2) ==
-  LET r == x.res
-      fl0 == s.obs.fl
-      fresh == r.ps = 0 \/ Min(r.mo, r.po) >= s.obs.alloc
-      segIdx == {i \in 1..Len(fl0) : Inside(Acc(r), Seg(fl0[i]))}
-      kind == KindOf(cfg)
-  IN
-  /\ Viol("C03", "ShapeOk", a, ShapeOk(op, r))
-  /\ Viol("C03", "AddressAligned", a,
-          (r.amod < 0 \/ TSize(op) = 0 \/ TAlign(op) > MaxAlignOf(cfg)) \/ r.amod % TAlign(op) = 0)
-  /\ Viol("C03", "PointerMatchesOffset", a, r.ptr_off < 0 \/ r.ptr_off = r.po)
-  /\ Viol("C03", "ZeroSizedTakesNothing", a,
-          ZeroReq(op) => (r.ps = 0 /\ x.obs.alloc = s.obs.alloc /\ x.obs.fl = s.obs.fl))
-  /\ Viol("C01", "NewDisjointFromLive", a,
-          \A h \in DOMAIN s.live : Disjoint(Acc(r), Acc(s.live[h])))
-  /\ Viol("C13", "NewDisjointFromDetached", a, \A k \in s.leaked : Disjoint(Acc(r), Acc(k)))
-  /\ Viol("C01", "InBounds", a, r.ps = 0 \/ (s.doff <= r.po /\ r.po + r.ps <= x.obs.alloc /\ x.obs.alloc <= x.obs.cap))
-  /\ Viol("C01", "ZstOccupiesNothing", a, (TSize(op) = 0 /\ Extra(op) = 0) => r.ps = 0)
-  /\ Viol("C16", "FirstAllocationAtDataOffset", a,
-          (s.first /\ r.ps > 0 /\ s.obs.alloc = s.doff /\ s.obs.fl = <<>>) => r.po = Align(s.doff, TAlign(op)))
-  /\ Viol("C08", "ZeroOnReturn", a, (op.k = "ab" /\ r.ps > 0) => RangeIs(x.mem0, r.po, r.po + r.ps, 0))
-  /\ Viol("C10", "ReuseOnlyFromFreeSegment", a, fresh \/ segIdx # {})
-  /\ Viol("C10", "NoneNeverReuses", a, (kind = "none") => fresh)
-  /\ Viol("C10", "OptimisticServesLargest", a, (kind = "opt" /\ ~fresh /\ segIdx # {}) => 1 \in segIdx)
-  /\ Viol("C10", "PessimisticServesSmallestFit", a,
-          (kind = "pes" /\ ~fresh /\ segIdx # {}) =>
-             \A i \in segIdx : \A j \in 1..Len(fl0) : fl0[j][2] < fl0[i][2] => fl0[j][2] < NeedMax(op))
-  /\ Viol("C10", "RemainderHoldsMinimumSegment", a,
-          \A i \in 1..Len(x.obs.fl) :
-             (\A j \in 1..Len(fl0) : fl0[j] # x.obs.fl[i]) => x.obs.fl[i][2] >= x.obs.minseg)
-  /\ Viol("C18", "FitsNewCapacity", a, s.truncated => (r.ps = 0 \/ r.po + r.ps <= x.obs.cap))
-  /\ Viol("C13", "OwnedEmbedsOneArenaValue", a,
-          LET d == x.obs.refs - s.obs.refs IN
-          IF r.owned THEN d \in {0, 1} /\ (r.ms > 0 => d = 1) ELSE d = 0)
-
-AllocErrChecks(a, op, x, s) ==
-  LET fl0 == s.obs.fl
-      kind == KindOf(cfg)
-  IN
-  /\ Viol("C04", "CleanErrorKind", a, x.res.k \in {"err_space", "err_ro"})
-  /\ Viol("C04", "FailedCallChangesNothing", a, SameObs(x.obs, s.obs))
-  /\ Viol("C03", "ZeroSizedAlwaysSucceeds", a, ~ZeroReq(op))
-  /\ Viol("C10", "OptimisticFailsOnlyIfLargestTooSmall", a,
-          kind = "opt" => (fl0 = <<>> \/ fl0[1][2] < NeedMax(op)))
-  /\ Viol("C10", "PessimisticFailsOnlyIfNoneFits", a,
-          kind = "pes" => \A j \in 1..Len(fl0) : fl0[j][2] < NeedMax(op))
-  /\ Viol("C18", "SucceedsIfFitsNewCapacity", a,
-          s.truncated => s.obs.alloc + NeedFresh(op, s.obs.alloc) > s.obs.cap)
-
-ReleaseChecks(a, op, x, s) ==
-  LET hr == s.live[op.h]
-      ds == Deallocs(x)
-      kind == KindOf(cfg)
-      onTop == hr.mo + hr.ms = s.obs.alloc
-      becameSeg == \E i \in 1..Len(x.obs.fl) : (\A j \in 1..Len(s.obs.fl) : s.obs.fl[j] # x.obs.fl[i])
-  IN
-  /\ Viol("C13", "ReleasesOwnExtentOnce", a,
-          IF op.k = "dealloc" THEN TRUE
-          ELSE IF hr.det THEN Len(ds) = 0
-          ELSE IF hr.ms > 0 THEN Len(ds) = 1 /\ ds[1].off = hr.mo /\ ds[1].size = hr.ms
-          ELSE Len(ds) = 0 \/ (Len(ds) = 1 /\ ds[1].off = hr.mo /\ ds[1].size = hr.ms))
-  /\ Viol("C13", "DetachedReleasesNothing", a,
-          (op.k = "drop" /\ hr.det) => (x.obs.alloc = s.obs.alloc /\ x.obs.disc = s.obs.disc /\ x.obs.fl = s.obs.fl))
-  /\ Viol("C13", "RefsReturned", a, x.obs.refs = s.obs.refs - hr.embeds)
-  /\ Viol("C20", "NoneCountsNonTopRelease", a,
-          (kind = "none" /\ ~(op.k = "drop" /\ hr.det) /\ ~onTop /\ hr.ms > 0) => x.obs.disc = s.obs.disc + hr.ms)
-  /\ Viol("C20", "TooSmallReleaseCounted", a,
-          (kind # "none" /\ ~(op.k = "drop" /\ hr.det) /\ ~onTop /\ hr.ms > 0 /\ ~becameSeg /\ x.obs.alloc = s.obs.alloc)
-             => (x.obs.disc = s.obs.disc + hr.ms /\ x.obs.fl = s.obs.fl))
-
-Clamp(v, lo, hi) == IF v < lo THEN lo ELSE IF v > hi THEN hi ELSE v
-Denote(op, s) == IF op.p = "start" THEN op.v ELSE IF op.p = "end" THEN s.obs.cap - op.v ELSE s.obs.alloc + op.v
-
-OtherChecks(a, op, x, s) ==
-  IF op.k = "discard" THEN
-     /\ Viol("C20", "DiscardReturnsSum", a, x.res.k = "ok" /\ x.res.v = SumSizes(s.obs.fl))
-     /\ Viol("C20", "DiscardAccounts", a, x.obs.disc = s.obs.disc + SumSizes(s.obs.fl))
-     /\ Viol("C20", "DiscardEmpties", a, x.obs.fl = <<>> /\ x.obs.alloc = s.obs.alloc)
-  ELSE IF op.k = "incdisc" THEN
-     Viol("C20", "IncreaseDiscardedAdds", a, x.obs.disc = s.obs.disc + op.v /\ x.obs.alloc = s.obs.alloc /\ x.obs.fl = s.obs.fl)
-  ELSE IF op.k = "rewind" THEN
-     /\ Viol("C17", "RewindClamps", a, x.obs.alloc = Clamp(Denote(op, s), s.doff, s.obs.cap))
-     /\ Viol("C17", "RewindChangesNothingElse", a,
-             /\ x.obs.disc = s.obs.disc /\ x.obs.fl = s.obs.fl /\ x.obs.minseg = s.obs.minseg
-             /\ x.obs.cap = s.obs.cap /\ x.mem = s.mem)
-  ELSE IF op.k = "clear" THEN
-     /\ Viol("C17", "ClearResets", a, x.res.k = "ok" /\ x.obs.alloc = s.doff /\ x.obs.fl = <<>> /\ x.obs.disc = 0
-                                       /\ x.obs.minseg = s.obs.minseg /\ x.obs.cap = s.obs.cap
-                                       /\ x.obs.rem = s.obs.cap - s.doff)
-     /\ Viol("C17", "ClearZeroesData", a, RangeIs(x.mem, s.doff, x.obs.cap, 0))
-  ELSE IF op.k = "truncate" /\ x.res.k # "na" THEN
-     /\ Viol("C18", "TruncateSetsCapacity", a, x.res.k = "ok" /\ x.obs.cap = Max(op.v, s.obs.alloc))
-     /\ Viol("C18", "TruncateKeepsState", a, x.obs.alloc = s.obs.alloc /\ x.obs.disc = s.obs.disc /\ x.obs.fl = s.obs.fl
-                                              /\ x.obs.minseg = s.obs.minseg)
-     /\ Viol("C18", "TruncateKeepsBytes", a, Clip(x.mem, s.obs.alloc) = Clip(s.mem, s.obs.alloc))
-  ELSE TRUE
-
-PanicProp(op) == IF IsAlloc(op) THEN "C04" ELSE IF op.k \in {"rewind", "clear"} THEN "C17"
-                 ELSE IF op.k = "truncate" THEN "C18" ELSE IF op.k \in {"discard", "incdisc"} THEN "C20" ELSE "C13"
+Report(a, P) == \A i \in 1..Len(P) : Viol(P[i][1], P[i][2], a, P[i][3])
+CfgRec == [kind |-> KindOf(cfg), maxalign |-> MaxAlignOf(cfg), reserved |-> ReservedOf(cfg)]
 
 CheckArena(a, op, x, s, s2) ==
   IF ~s.ok \/ s.dead \/ x.res.k \in {"dead", "noarena", "skip"} THEN TRUE
   ELSE IF x.res.k = "panic" THEN Viol(PanicProp(op), "NoPanic", a, FALSE)
   ELSE
-  /\ IF IsAlloc(op) THEN (IF x.res.k = "ok" THEN AllocOkChecks(a, op, x, s, s2) ELSE AllocErrChecks(a, op, x, s))
-     ELSE IF op.k \in {"drop", "dealloc"} THEN ReleaseChecks(a, op, x, s)
-     ELSE OtherChecks(a, op, x, s)
-  \* state-wide, after every step
-  /\ Viol("C01", "LiveIntact", a, LiveIntact(s2.live, x.mem))
-  /\ Viol("C13", "DetachedDataIntact", a, LeakedIntact(s2.leaked, x.mem))
-  /\ Viol("C16", "ReservedUntouched", a, RangeIs(x.mem, 0, ReservedOf(cfg), ReservedPattern))
-  /\ Viol("C16", "RemainingIsCapMinusAllocated", a, x.obs.rem = x.obs.cap - x.obs.alloc /\ x.obs.doff = s.doff)
-  /\ Viol("C10", "FreeListWellFormed", a, FLShape(KindOf(cfg), s.doff, x.obs.fl, x.obs, s2.rewound))
-  /\ Viol("C10", "FreeListDisjointFromLive", a, FLvsLive(x.obs.fl, s2.live))
-  /\ Viol("C13", "FreeListDisjointFromDetached", a, FLvsLeaked(x.obs.fl, s2.leaked))
-  /\ Viol("C20", "DiscardedMonotone", a, op.k = "clear" \/ x.obs.disc >= s.obs.disc)
-  /\ Viol("C13", "RefsCountArenaValues", a,
-          x.obs.refs = 1 + Cardinality({h \in DOMAIN s2.live : s2.live[h].embeds = 1}))
+  LET c == CfgRec r == x.res o == x.obs IN
+  /\ IF IsAlloc(op) THEN
+        IF r.k = "ok"
+        THEN Report(a, AllocOkPreds(c, s, op, r, o,
+                 [zeroOnReturn |-> (op.k = "ab" /\ r.ps > 0) => RangeIs(x.mem0, r.po, r.po + r.ps, 0)]))
+        ELSE Report(a, AllocErrPreds(c, s, op, r, o))
+     ELSE IF op.k \in {"drop", "dealloc"} THEN Report(a, ReleasePreds(c, s, op, s.live[op.h], Deallocs(x), o))
+     ELSE Report(a, OtherPreds(c, s, op, r, o,
+                 \* the cursor lives inside the buffer in the unified layout: compare everything but the header area
+                 [memSame |-> /\ Window(x.mem, 0, c.reserved) = Window(s.mem, 0, c.reserved)
+                              /\ Window(x.mem, s.doff, o.cap) = Window(s.mem, s.doff, o.cap),
+                  dataZero |-> RangeIs(x.mem, s.doff, o.cap, 0),
+                  bytesKept |-> Clip(x.mem, s.obs.alloc) = Clip(s.mem, s.obs.alloc)]))
+  /\ Report(a, StatePreds(c, s, s2, op, o,
+                 [liveIntact |-> LiveIntact(s2.live, x.mem),
+                  leakedIntact |-> LeakedIntact(s2.leaked, x.mem),
+                  reservedOk |-> RangeIs(x.mem, 0, c.reserved, ReservedPattern)]))
 
 \* cross-arena comparisons requested by the driver: <<i, j, property, withMem>>
 Applies(op, i) == ~Has(op, "only") \/ \E k \in 1..Len(op.only) : op.only[k] = i
@@ -277,6 +145,8 @@ ResEq(r1, r2) == /\ r1.k = r2.k
 ComparePair(p, e) ==
   LET i == p[1] j == p[2] xi == e.arenas[i] xj == e.arenas[j] IN
   IF ~(S[i].ok /\ S[j].ok) \/ S[i].dead \/ S[j].dead \/ ~Applies(e.op, i) \/ ~Applies(e.op, j)
+     \* a call one flavour does not offer (truncate on sync) ends the comparison for this driver
+     \/ S[i].na \/ S[j].na
      \/ xi.res.k \in {"panic", "dead"} \/ xj.res.k \in {"panic", "dead"} \/ xi.res.k = "na" \/ xj.res.k = "na"
   THEN TRUE
   ELSE /\ Viol(p[3], "SameResult", i, ResEq(xi.res, xj.res))
